@@ -1,7 +1,11 @@
 package checks
 
 import (
+	"encoding/json"
 	"fmt"
+	"math/rand"
+	"os"
+	"path/filepath"
 	"sort"
 	"strings"
 	"time"
@@ -61,32 +65,63 @@ func srcCoverage(c *vf.Check, res *vf.TLCResult, cases []srcCase, run *srcRun, s
 	c.Cov["bounds"] = consts
 }
 
+// randomLarger derives n programs of size 5..12 from seeded choice tapes with the
+// grammar of spec/MC_Rnd.tla (same alphabet as F_ctl), 3 input tapes each, and puts
+// them through the same pipeline.
+func randomLarger(c *vf.Check, id string, keys []string, n int) {
+	if v := os.Getenv("VERIF_RANDOM_N"); v != "" {
+		fmt.Sscan(v, &n)
+	}
+	rnd := rand.New(rand.NewSource(c.Seed*7919 + 13))
+	var sb strings.Builder
+	for i := 0; i < n; i++ {
+		size := 5 + rnd.Intn(8)
+		ch := make([]int, 80)
+		for j := range ch {
+			ch[j] = rnd.Intn(64)
+		}
+		for t := 0; t < 3; t++ {
+			tape := make([]bool, 2+rnd.Intn(7))
+			for j := range tape {
+				tape[j] = rnd.Float64() < 0.6
+			}
+			b, _ := json.Marshal(J{"size": size, "ch": ch, "tape": tape})
+			sb.Write(b)
+			sb.WriteByte('\n')
+		}
+	}
+	f := filepath.Join(c.S.Sub("choices"), "choices.ndjson")
+	writeFile(f, sb.String())
+	var cases []srcCase
+	res := c.S.RunTLC(vf.TLCRun{Module: "MC_Rnd", Cfg: "MC_Rnd.cfg", Consts: map[string]string{"OpenFlags": flagSet(c, "KF04", "KF16")},
+		Env: []string{"VERIF_CHOICES=" + f}, Timeout: 30 * time.Minute,
+		OnCase: func(raw []byte) {
+			var sc srcCase
+			vf.Must(json.Unmarshal(raw, &sc))
+			if sc.Prog == nil {
+				sc.Prog = []any{}
+			}
+			cases = append(cases, sc)
+		}})
+	res.MustComplete("MC_Rnd")
+	run := runSrcFamilyCalls(c, cases, srcOpts{Budget: 60})
+	nfail := noteCompileFailures(c, run)
+	st := judgeSrc(c, "F_ctl(derived)", cases, run, "KF04", keys, renderCo)
+	c.Note("derived larger programs (size 5..12, seed %d): programs=%d (compile/build failures %d) cases=%d compared=%d pass=%d violations=%d; spec=native on all", c.Seed, len(run.Progs), nfail, len(cases), st.Compared, st.Pass, st.Viol)
+	c.Add("states", res.Distinct)
+	c.Add("transitions", res.Generated)
+	c.Add("traces_validated_against_impl", int64(st.Compared))
+	c.Add("programs", int64(len(run.Progs)))
+	c.Add("evaluations", int64(len(cases)))
+	c.Add("random_programs", int64(len(run.Progs)))
+}
+
 // C01: compiled generators yield exactly the source's coroutine sequence.
 func C01(c *vf.Check) {
-	consts := map[string]string{
-		"Family":    `"ctl"`,
-		"MaxSize":   tier(c, "3", "4"),
-		"TapeLen":   tier(c, "3", "4"),
-		"MaxCalls":  tier(c, "5", "6"),
-		"OpenFlags": flagSet(c, "KF04", "KF16"),
-		"Lazy":      tier(c, "FALSE", "TRUE"),
-	}
-	cases, res := collectSrcCases(c, "MC_Src", "MC_Src.cfg", consts, tier(c, 10*time.Minute, 90*time.Minute))
-	c.Note("TLC MC_Src(ctl): %d states, %d cases emitted (%.0fs)", res.Distinct, res.Cases, res.Wall.Seconds())
-	calls := 5
-	fmt.Sscan(consts["MaxCalls"], &calls)
-	run := runSrcFamily(c, cases, calls, srcOpts{})
-	nfail := noteCompileFailures(c, run)
-	st := judgeSrc(c, "F_ctl", cases, run, "KF04", []string{"ok", "cur", "panic"}, renderCo)
-	c.Note("F_ctl: programs=%d (compile/build failures %d) cases=%d compared=%d pass=%d known=%d violations=%d; spec=native on all %d cases",
-		len(run.Progs), nfail, len(cases), st.Compared, st.Pass, st.Known, st.Viol, len(cases))
-	if len(cases) > 0 {
-		bindingSelfTest(c, "C01", cases[len(cases)/2].Ideal, srcKeys)
-	}
-	srcCoverage(c, res, cases, run, st, consts,
-		"every generator program of the control-flow family F_ctl (eff, inc, yield of literal/variable, if/else, tagged switch, block, for with optional yielding init / trivial or yielding post / optional condition, break, continue, return) up to MaxSize statements x every tape up to TapeLen, MaxCalls advances (prefixes = every finite prefix / truncation); non-trivial = distinct (program,tape) whose run yields at least once or performs an effect in the first advance")
-	c.Cov["exhaustive"] = true
-	c.Assumptions = append(c.Assumptions,
-		"oracle = CoSource.tla, validated on every case of this run against native Go (iter.Pull rendering of the same AST)",
-		"element type int, two int parameters; programs the compiler rejects or whose output does not build are C11's business and are not compared here")
+	keys := []string{"ok", "cur", "panic"}
+	runFam(c, famSpec{id: "C01", fam: "ctl", name: "F_ctl", sizeQ: "3", sizeT: "4", tapeQ: "3", tapeT: "4", callsQ: 5, callsT: 6, keys: keys, lazyT: true,
+		rule:   "F_ctl: every generator program of the control-flow family (eff, inc, yield of literal/variable, if/else, tagged switch, block, for with optional yielding init / trivial or yielding post / optional condition, break, continue, return, return <expr>) up to MaxSize statements x every tape up to TapeLen, MaxCalls advances (prefixes = every finite prefix / truncation); F_jump: only what interacts with break/continue (loops with and without yielding post, switch, if) one size level deeper; plus programs of size 5..12 derived from seeded choice tapes by the same grammar (MC_Rnd.tla); non-trivial = distinct (program,tape) whose run yields at least once or performs an effect in the first advance",
+		assume: []string{"element type int, two int parameters; programs the compiler rejects or whose output does not build are C11's business and are not compared here"}})
+	runFam(c, famSpec{id: "C01", fam: "jump", name: "F_jump", sizeQ: "4", sizeT: "5", tapeQ: "3", tapeT: "3", callsQ: 6, callsT: 7, keys: keys, lazyT: true, rule: ""})
+	randomLarger(c, "C01", keys, tier(c, 300, 5000))
 }
